@@ -126,7 +126,11 @@ func (m *Mast) diffOne(
 		return ErrNoMoreDiffs
 	} else if o == nil && n != nil {
 		if n.considerLink != nil {
-			if !m.alreadyNotified(ctx, "new", dc.alreadyNotifiedNewLink, n.considerLink) {
+			notified, err := m.alreadyNotified(ctx, "new", dc.alreadyNotifiedNewLink, n.considerLink)
+			if err != nil {
+				return fmt.Errorf("load: %w", err)
+			}
+			if !notified {
 				dc.addedLink = n.considerLink
 			}
 			newNode, err := m.load(ctx, n.considerLink)
@@ -141,7 +145,11 @@ func (m *Mast) diffOne(
 		}
 	} else if o != nil && n == nil {
 		if o.considerLink != nil {
-			if !dc.oldMast.alreadyNotified(ctx, "old", dc.alreadyNotifiedOldLink, o.considerLink) {
+			notified, err := dc.oldMast.alreadyNotified(ctx, "old", dc.alreadyNotifiedOldLink, o.considerLink)
+			if err != nil {
+				return fmt.Errorf("load: %w", err)
+			}
+			if !notified {
 				dc.removedLink = o.considerLink
 			}
 			oldNode, err := dc.oldMast.load(ctx, o.considerLink)
@@ -160,10 +168,18 @@ func (m *Mast) diffOne(
 				if m.debug {
 					fmt.Printf("  old(consider) new(consider) and links differ\n")
 				}
-				if !dc.oldMast.alreadyNotified(ctx, "old", dc.alreadyNotifiedOldLink, o.considerLink) {
+				notified, err := dc.oldMast.alreadyNotified(ctx, "old", dc.alreadyNotifiedOldLink, o.considerLink)
+				if err != nil {
+					return fmt.Errorf("load: %w", err)
+				}
+				if !notified {
 					dc.removedLink = o.considerLink
 				}
-				if !m.alreadyNotified(ctx, "new", dc.alreadyNotifiedNewLink, n.considerLink) {
+				notified, err = m.alreadyNotified(ctx, "new", dc.alreadyNotifiedNewLink, n.considerLink)
+				if err != nil {
+					return fmt.Errorf("load: %w", err)
+				}
+				if !notified {
 					dc.addedLink = n.considerLink
 				}
 				oldNode, err := dc.oldMast.load(ctx, o.considerLink)
@@ -211,7 +227,11 @@ func (m *Mast) diffOne(
 				}
 			}
 		} else if o.considerLink != nil && n.considerLink == nil {
-			if !dc.oldMast.alreadyNotified(ctx, "old", dc.alreadyNotifiedOldLink, o.considerLink) {
+			notified, err := dc.oldMast.alreadyNotified(ctx, "old", dc.alreadyNotifiedOldLink, o.considerLink)
+			if err != nil {
+				return fmt.Errorf("load: %w", err)
+			}
+			if !notified {
 				dc.removedLink = o.considerLink
 			}
 			oldNode, err := dc.oldMast.load(ctx, o.considerLink)
@@ -221,7 +241,11 @@ func (m *Mast) diffOne(
 			dc.oldStack.pushNode(oldNode)
 			dc.newStack.push(n)
 		} else if o.considerLink == nil && n.considerLink != nil {
-			if !m.alreadyNotified(ctx, "new", dc.alreadyNotifiedNewLink, n.considerLink) {
+			notified, err := m.alreadyNotified(ctx, "new", dc.alreadyNotifiedNewLink, n.considerLink)
+			if err != nil {
+				return fmt.Errorf("load: %w", err)
+			}
+			if !notified {
 				dc.addedLink = n.considerLink
 			}
 			newNode, err := m.load(ctx, n.considerLink)
@@ -258,7 +282,7 @@ func (m *Mast) diffOne(
 	return nil
 }
 
-func (m *Mast) alreadyNotified(ctx context.Context, name string, linkByHeight map[uint8]interface{}, link interface{}) bool {
+func (m *Mast) alreadyNotified(ctx context.Context, name string, linkByHeight map[uint8]interface{}, link interface{}) (bool, error) {
 	path := []interface{}{}
 	myLink := link
 	var keyHeight uint8
@@ -266,16 +290,20 @@ func (m *Mast) alreadyNotified(ctx context.Context, name string, linkByHeight ma
 		path = append(path, myLink)
 		node, err := m.load(ctx, myLink)
 		if err != nil {
-			return false
+			return false, err
 		}
 		if len(node.Link) == 1 {
 			myLink = node.Link[0]
+			if myLink == nil {
+				// an entry-less node with nothing below it
+				return false, nil
+			}
 			continue
 		}
 		key := node.Key[0]
 		keyHeight, err = m.keyLayer(key, m.branchFactor)
 		if err != nil {
-			return false
+			return false, err
 		}
 		break
 	}
@@ -293,7 +321,7 @@ func (m *Mast) alreadyNotified(ctx context.Context, name string, linkByHeight ma
 	if res && m.debug {
 		fmt.Printf("already notified %s\n", name)
 	}
-	return res
+	return res, nil
 }
 
 type iterItemStack struct {
